@@ -142,7 +142,13 @@ impl Operation {
     }
 
     pub fn security(mut self, securityScheme: SecurityScheme, scopes: &[&'static str]) -> Self {
-        self.security.push(Map::from_iter([(SecuritySchemeName(securityScheme), scopes.into())]));
+        /* every scheme added here must be satisfied (each comes from a fang or an extractor
+           around the handler): they go into ONE Security Requirement Object. Separate elements
+           of `security` would be alternatives, of which a single one is enough (OpenAPI 4.8.10) */
+        if self.security.is_empty() {
+            self.security.push(Map::new());
+        }
+        self.security[0].insert(SecuritySchemeName(securityScheme), scopes.into());
         self
     }
 
@@ -230,14 +236,8 @@ impl Operation {
     #[doc(hidden)]
     pub fn iter_securitySchemes(&self) -> impl Iterator<Item = SecurityScheme> {
         self.security.clone().into_iter()
-            .map(|map| {
-                let [SecuritySchemeName(ss)] = map.clone()
-                    .into_keys()
-                    .collect::<Vec<_>>()
-                    .try_into().ok()
-                    .expect("[OpenAPI] Unexpected multiple keys in one element of SecurityRequirement");
-                ss
-            })
+            .flat_map(|map| map.into_keys())
+            .map(|SecuritySchemeName(ss)| ss)
     }
     #[doc(hidden)]
     pub fn refize_schemas(&mut self) -> impl Iterator<Item = RawSchema> + '_ {
